@@ -1054,3 +1054,29 @@ def h_fit_points_call(eng, st, args, kw, node, exits):
     st.assume(s.n == c.fields[KVF].fields["npts"].z)
     c.fields[PF] = s
     return NoneV()
+
+
+# ---- norm(object, L=0): the infinity norm used by BaseCurve.__eq__ ------------------------------------------------------------------------
+def h_norm_scalar(eng, st, args, kw, node, exits):
+    """norm(item, L) on a number, by the contract NORM_SCALAR: abs(item)."""
+    x = args[0]
+    if not isinstance(x, Num):
+        raise E.Unsupported("norm of a nested sequence")
+    return Num(z3.If(x.real() >= 0, x.real(), -x.real()), False)
+
+
+NORM_SPEC = {"absv": lambda se, x: Num(z3.If(x.real() >= 0, x.real(), -x.real()), False)}
+NORM_SCALAR = Contract("curves.norm[scalar]", params={"object": "real", "L": "int"}, requires=["L == 0"], spec=NORM_SPEC, calls={"func:norm": CallSpec(h_norm_scalar)},
+                       ensures=["result == absv(object)"], raises={}, result_kind="num", canary="result == absv(object) + 1")
+NORM_SEQ = Contract(
+    "curves.norm[sequence of numbers]", params={"object": "seq", "L": "int"}, requires=["L == 0"], spec=NORM_SPEC, calls={"func:norm": CallSpec(h_norm_scalar)},
+    loops={0: dict(invariant=["0 <= it0 and it0 <= len(object)", "soma >= 0", "all(soma >= absv(object[k]) for k in range(it0))",
+                              "soma == 0 or any(soma == absv(object[k]) for k in range(it0))"], decreases="len(object) - it0")},
+    # the infinity norm: an upper bound of every |x_k| that is attained (0 for the empty sequence) - for sequences of every length
+    ensures=["all(result >= absv(object[k]) for k in range(len(object)))", "result >= 0",
+             "result == 0 or any(result == absv(object[k]) for k in range(len(object)))"],
+    raises={}, result_kind="num", covers=["len(object) == 3"], canary="result == 0")
+_new = [(NORM_SCALAR, "curves", "norm", None), (NORM_SEQ, "curves", "norm", None)]
+for _c, _m, _q, _v in _new:
+    _c.tag = _c.name[_c.name.index("["):]
+ALL += _new
